@@ -642,6 +642,7 @@ func run(c *hk.Ctx) {
 	runE2E(c)
 	runBurst(c)
 	runCancelled(c)
+	runDeliveries(c)
 	// generated histories
 	for _, kind := range []string{"streamable", "legacy", "stdio"} {
 		n := nHist
